@@ -171,7 +171,9 @@ def verify_add_command(repo):
     keys = DKEYS(Val.did(args))
     st.assume(z3.ForAll([k0], z3.Implies(z3.And(k0 >= 0, k0 < z3.Length(keys)), z3.And(Val.is_S(keys[k0]), DHAS_(Val.did(args), keys[k0])))))
     kv = z3.Const("akv", Val)
-    st.assume(z3.ForAll([kv], z3.Implies(DHAS_(Val.did(args), kv), z3.Exists([k0], z3.And(k0 >= 0, k0 < z3.Length(keys), keys[k0] == kv)))))
+    IDX = z3.Function("key_index", I_, Val, I_)
+    ad = Val.did(args)
+    st.assume(z3.ForAll([kv], z3.Implies(DHAS_(ad, kv), z3.And(IDX(ad, kv) >= 0, IDX(ad, kv) < z3.Length(keys), keys[IDX(ad, kv)] == kv))))
     eng.lx = {"args_did": Val.did(args), "inputs_did": Val.did(inputs), "allow_extra": FLD("allow_extra_inputs")(cc)}
     label = fi.key
     missing = lambda k: z3.And(DHAS_(Val.did(req), k), z3.Not(DHAS_(Val.did(args), k)))
